@@ -264,7 +264,8 @@ class _FnParser:
             j += 1
 
 
-FN_HEAD = re.compile(r'^([A-Za-z_]\w*)[ \t]*\(', re.M)
+# function name at column 0, or a one-line `static int inline name(...)` head starting at column 0
+FN_HEAD = re.compile(r'^(?:[A-Za-z_][\w \t\*]*?[ \t\*])?([A-Za-z_]\w*)[ \t]*\(', re.M)
 KEYWORDS = {'if', 'for', 'while', 'switch', 'return', 'sizeof', 'do', 'else', 'defined'}
 
 
